@@ -96,18 +96,21 @@ def layers(env, mod, t, outer=None):
     return cur, r
 
 
-def outer_tags(env, mod, t, outer=None, _depth=0):
+def outer_tags(env, mod, t, outer=None, _seen=None):
     """Set of possible outermost tags of type use t (CHOICE: union)."""
     ls, r = layers(env, mod, t, outer)
     if ls:
         return {ls[0]}
     # untagged CHOICE
     out = set()
-    if _depth > 16:
+    if _seen is None:
+        _seen = set()
+    if id(r.base) in _seen:
         return out
+    _seen.add(id(r.base))
     auto = component_autotags(env, r.mod, r.base)
     for c in all_comps(r.base):
-        out |= outer_tags(env, r.mod, c.t, auto.get(c.name), _depth + 1)
+        out |= outer_tags(env, r.mod, c.t, auto.get(c.name), _seen)
     return out
 
 
